@@ -1523,9 +1523,14 @@ class StateEngine(object):
 
                             """
                             Tidy up self.branch_metadata for current execution_arn
-                            before republishing the Task state event.
+                            before republishing the Map or Parallel state event.
+                            Note this must not be done when retrying a Task that
+                            is running *inside* a Branch or Iterator, as that
+                            would discard the results that the peer branches
+                            of that Task have already returned.
                             """
-                            if execution_arn in self.branch_metadata:
+                            if ((state_type == "Map" or state_type == "Parallel")
+                                and execution_arn in self.branch_metadata):
                                 self.check_pending_results(execution_arn)
 
                             """
